@@ -460,6 +460,8 @@ def check(ctx: Ctx) -> None:
     check_orchestration(ctx)
     check_stream(ctx)
     check_pause_gate(ctx)
+    from . import _extra
+    _extra.check_revision_lock_scope(ctx, 'R19.5')
 
 
 SPEC = PropSpec(
